@@ -15,11 +15,11 @@ META = {
     "functions": ["gfapy.field.parser.Parser._parse_gfa_field (safe)", "gfapy/field/<datatype>.decode for i, f, optional_integer, position_gfa1, position_gfa2, alignment_gfa1, alignment_gfa2, H, B, J, A, Z, orientation, oriented_identifier_gfa2, sequence_gfa1, segment_name_gfa1",
                   "LastPos._from_string", "Alignment._from_string", "CIGAR._from_string", "Trace._from_string", "NumericArray.from_string", "ByteArray.__new__"],
     "bounds": "every string of length <= 3 (quick) / <= 4 (thorough) without newline (newline behaviour: E2), one datatype per partition: safe decode accepts iff the independent grammar does (H: grammar and even length; B: grammar and values inside the subtype range)",
-    "timeout": {"quick": 300, "thorough": 1200}, "parts": {"quick": 16, "thorough": 16}},
+    "timeout": {"quick": 300, "thorough": 900}, "parts": {"quick": 16, "thorough": 16}},
   "h_decode_alphabet": {"kind": "K",
     "functions": ["gfapy/field/byte_array.decode", "numeric_array.decode", "float.decode", "json.decode", "ByteArray.__new__", "NumericArray.from_string"],
     "bounds": "H, B, f, J: every string of length <= 2 (quick) / <= 3 (thorough) over a per-datatype alphabet of up to 16 characters (hex digits upper/lower case, subtype letters, signs, digits around the range limits, '.', exponent, 'inf'/'nan' letters, JSON punctuation), indices chosen by the solver",
-    "timeout": {"quick": 300, "thorough": 1200}, "parts": {"quick": 16, "thorough": 16}},
+    "timeout": {"quick": 300, "thorough": 900}, "parts": {"quick": 16, "thorough": 16}},
   "h_path_overlaps": {"kind": "L",
     "functions": ["gfapy.line.group.path.validation.Validation._validate_lists_size", "Line.__init__", "Gfa.__init__/validate", "path References._compute_required_links"],
     "bounds": "P lines with 1..4 segments and 1..5 overlaps (all CIGARs, or all '*', or a single '*'), as a line and inside a Gfa that defines the segments and links, vlevel 1..3: accepted iff the overlap list is a single '*', or has one entry per junction (n-1), or one per junction of a circular path (n)",
